@@ -94,7 +94,11 @@ func (f *Font) MakeGlyphNames() []string {
 
 	if cmap, _ := f.CMapTable.GetBest(); cmap != nil {
 		a, b := cmap.CodeRange()
-		for r := a; r <= b; r++ {
+		// The loop variable is wider than a rune: with b == math.MaxInt32
+		// (a format 12 subtable can map code 0x7FFFFFFF) r++ would wrap
+		// around and the loop would never end.
+		for c := int64(a); c <= int64(b); c++ {
+			r := rune(c)
 			gid := cmap.Lookup(r)
 			if int(gid) >= len(glyphNames) || glyphNames[gid] != "" {
 				// This includes the case of unmapped runes (gid == 0),
